@@ -127,6 +127,27 @@ def record_signature(I, seed, m):
     I.path.ghost.setdefault('all_sigs', []).append((seed, m))
 
 
+LOW = z3.Function('low_order', T.Term, z3.BoolSort())
+ZERO32 = T.lit_bytes(b'\x00' * 32)
+
+
+def secret_cond(I, t, depth=0):
+    """formula under which term t depends on the X25519 agreement of two honest scalars (unknown to the adversary)"""
+    hs = I.path.ghost.get('honest_scalars', [])
+    if depth > 12 or not z3.is_app(t):
+        return False
+    if z3.is_app(t) and t.decl().kind() == z3.Z3_OP_ITE:
+        c = t.arg(0)
+        return zor(zand(c, secret_cond(I, t.arg(1), depth + 1)), zand(z3.Not(c), secret_cond(I, t.arg(2), depth + 1)))
+    a = T.is_app(t, 'dhs')
+    if a is not None:
+        return any(a[0].eq(h) for h in hs) and any(a[1].eq(h) for h in hs)
+    args = T.is_app(t)
+    if args is not None:
+        return zor(*[secret_cond(I, x, depth + 1) for x in args])
+    return False
+
+
 def install(I):
     C, M, N = I.contracts, I.methods, I.intrinsics
 
@@ -314,23 +335,38 @@ def install(I):
     C[W + 'PublicKeyToCurve25519'] = pub_to_curve
 
     # ---------------- DH
+    def dhs(I, a, b):
+        x, y = (a, b) if a.sexpr() <= b.sexpr() else (b, a)
+        return mk(I, 'dhs', x, y, blen=32)
+
     def dh(I, a, P):
-        """X25519(a, P) as a term; symmetric for honest points xpub(b)"""
+        """X25519(a, P) as a term: symmetric for honest points xpub(b); for an arbitrary point P the result is ZERO when
+        P is of low order (an uninterpreted predicate the solver may choose), equals the honest shared secret when P happens
+        to be an honest public point, and is a free function otherwise (DESIGN 2.3)"""
         pb_ = T.is_app(P, 'xpub')
         if pb_ is not None:
-            x, y = a, pb_[0]
-            if x.sexpr() > y.sexpr():
-                x, y = y, x
-            return mk(I, 'dhs', x, y, blen=32)
-        h = I.contracts.get('hook.dh')
-        if h:
-            return h(I, [a, P], None)
-        return mk(I, 'dh', a, P, blen=32)
+            return dhs(I, a, pb_[0])
+        if not I.cfg.get('dh_low_order'):
+            return mk(I, 'dh', a, P, blen=32)
+        g = I.path.ghost
+        res = mk(I, 'dh', a, P, blen=32)
+        for sc in g.get('honest_scalars', []):
+            if sc.eq(a):
+                continue
+            res = z3.If(P == T.app('xpub', sc), dhs(I, a, sc), res)
+        res = z3.If(LOW(P), ZERO32, res)
+        I.add(T.blen(res) == 32)
+        for sc in g.get('honest_scalars', []):
+            I.add(z3.Not(LOW(T.app('xpub', sc))))
+        return res
 
     I.dh = lambda a, P: dh(I, a, P)
 
     def box_key(I, pub_ptr, priv_ptr):
-        return mk(I, 'hs', dh(I, arr_ptr_term(I, priv_ptr), arr_ptr_term(I, pub_ptr)), blen=32)
+        d = dh(I, arr_ptr_term(I, priv_ptr), arr_ptr_term(I, pub_ptr))
+        t = T.app('hs', d)
+        I.add(T.blen(t) == 32)
+        return t
 
     def do_seal(I, m, n, k):
         mt = I.bytes_term(m)
@@ -339,6 +375,7 @@ def install(I):
         sk = secret_keys(I)
         if k.sexpr() in sk:
             sk[k.sexpr()][1].append(t)
+        I.path.ghost.setdefault('all_seals', []).append((k, t))
         return TermBytes(t)
 
     def do_open(I, box, n, k, label):
@@ -352,6 +389,14 @@ def install(I):
             okf = simp_bool(z3.And(form, n2 == n, k2 == k))
         if not I.fork_bool(okf, label):
             return (None, False)
+        if I.cfg.get('auto_secrecy'):
+            # a key that depends on the agreement of two honest scalars is unknown to the adversary: an opening that
+            # succeeds under it was sealed by an honest party under the same key (INT-CTXT)
+            sc = secret_cond(I, k)
+            if sc is not False:
+                seals = I.path.ghost.get('all_seals', [])
+                alts = [z3.And(k == k2, bt == b2) for (k2, b2) in seals]
+                I.add(z3.Implies(sc if sc is not True else z3.BoolVal(True), z3.Or(*alts) if alts else z3.BoolVal(False)))
         # INT-CTXT for keys declared secret: the ciphertext is one of the honest seals under that key
         for key, (kt, boxes) in secret_keys(I).items():
             hyp = (k == kt)
@@ -433,6 +478,20 @@ def install(I):
         P = arr_ptr_term(I, pu) if isinstance(pu, Ptr) else I.bytes_term(pu)
         return TermBytes(dh(I, a, P))
 
+    def curve_x25519(I, args, ins):
+        scalar, point = args
+        a, P = I.bytes_term(scalar), I.bytes_term(point)
+        if I.len_of(scalar) != 32 or I.len_of(point) != 32:
+            n1, n2 = I.len_of(scalar), I.len_of(point)
+            if isinstance(n1, int) and isinstance(n2, int):
+                return (None, mk_error(I, 'bad scalar/point length'))
+        pb_ = T.is_app(P, 'xpub')
+        if pb_ is None and I.cfg.get('dh_low_order'):
+            if I.fork_bool(LOW(P), 'low-order-point'):
+                return (None, mk_error(I, 'bad input point: low order point'))
+        return (bytes_value(I, dh(I, a, P)), None)
+
+    C['golang.org/x/crypto/curve25519.X25519'] = curve_x25519
     C['github.com/aead/ecdh.X25519'] = ecdh_x25519
     M[('ecdhx', 'ComputeSecret')] = ecdh_compute
 
@@ -788,6 +847,7 @@ def install(I):
     def v_honest_key(I, args, ins):
         k = args[0]
         declare_honest_key(I, k.v.s)
+        I.path.ghost.setdefault('honest_scalars', []).append(T.app('edpriv2x', k.v.s))
         return None
 
     def v_secret_sym(I, args, ins):
